@@ -45,14 +45,15 @@ type advSim struct {
 	//                    container is emptied after every round-change, so it never takes part in a partial quorum (known C07 finding)
 	timeoutFaultPct int // with netFaults: probability (percent) that a firing round timer meets a failing Broadcast
 	inContinuation  bool
+	prod            bool     // the correct operators' controllers come from the production wiring (prodcfg.go)
 	netFaults       bool     // the correct operators' own Broadcast calls fail now and then (after / before sending)
 	alt             *altRole // the correct operators' controllers for a second duty role (other identifier), see crossrole.go
 	altValues       [][]byte
 }
 
-func newAdvSim(env *Env, r *hx.Rng, h specqbft.Height, nByz int, compact bool) *advSim {
+func newAdvSim(env *Env, r *hx.Rng, h specqbft.Height, nByz int, compact, prod bool) *advSim {
 	a := &advSim{r: r, byz: map[spectypes.OperatorID]bool{}, pending: map[spectypes.OperatorID][]int{}, done: map[spectypes.OperatorID][]int{},
-		reported: map[spectypes.OperatorID][]byte{}, decVal: map[spectypes.OperatorID][]byte{}, compact: compact}
+		reported: map[spectypes.OperatorID][]byte{}, decVal: map[spectypes.OperatorID][]byte{}, compact: compact, prod: prod}
 	a.Sim = &Sim{env: env, h: h}
 	p := r.Perm(env.n)
 	for i := 0; i < nByz; i++ {
@@ -73,7 +74,7 @@ func (a *advSim) addNodes(env *Env, h specqbft.Height, compact bool) {
 		id := spectypes.OperatorID(i)
 		nd := &SimNode{id: id, byz: a.byz[id], compact: compact}
 		if !nd.byz {
-			nd.c = newCase(env, id, h, [][]byte{badValue}, true, false, compact)
+			nd.c = newCaseCfg(env, id, h, [][]byte{badValue}, true, false, compact, a.prod)
 			nd.c.in = shared
 			nd.c.c07 = *mode == "c07"
 			nd.c.emit(nd.c.resetLine(), "ok")
@@ -854,7 +855,8 @@ func runSim(r *hx.Rng, withContinuation bool) []caseOut {
 	hs := []uint64{0, 1, 2, 3, 5, 6, 9}
 	h := specqbft.Height(hs[r.Intn(len(hs))])
 	compact := r.Chance(40)
-	a := newAdvSim(env, r, h, nByz, compact)
+	prod := r.Chance(25)
+	a := newAdvSim(env, r, h, nByz, compact, prod)
 	vals := make([][]byte, env.n)
 	same := r.Chance(40)
 	base := r.Intn(50)
@@ -883,7 +885,7 @@ func runSim(r *hx.Rng, withContinuation bool) []caseOut {
 	for k := 0; k < steps; k++ {
 		a.schedStep()
 	}
-	tags := []string{"case/sim", fmt.Sprintf("n/%d", env.n), fmt.Sprintf("byz/%d", nByz), fmt.Sprintf("compaction/%v", compact), fmt.Sprintf("compaction-decided-only/%v", a.decidedOnly), fmt.Sprintf("second-role/%v", a.alt != nil)}
+	tags := []string{"case/sim", fmt.Sprintf("n/%d", env.n), fmt.Sprintf("byz/%d", nByz), fmt.Sprintf("config/production-%v", prod), fmt.Sprintf("compaction/%v", compact), fmt.Sprintf("compaction-decided-only/%v", a.decidedOnly), fmt.Sprintf("second-role/%v", a.alt != nil)}
 	if withContinuation {
 		used, why := a.continuation()
 		if used < 0 {
